@@ -6,5 +6,7 @@ CONSTANTS
   NDim = 2
   Coords <- c_Coords
   Labels = {"L1", "L2"}
+  DupIds = {"d1", "d2"}
+  DupOf = {"a", "x", "p1"}
 INIT Init
 NEXT Next
